@@ -8,9 +8,11 @@ IN="$1"; OUT="$2"; shift 2
 NAME="$(basename "$IN")"
 WT="/tmp/seedwt-$NAME"
 export CARGO_NET_OFFLINE=true
-export CARGO_TARGET_DIR="/tmp/seedtgt-$NAME"
+LANE="${LANE:-lane$PPID}"
+export CARGO_TARGET_DIR="/tmp/seedtgt-$LANE"
 LOG="/tmp/seedlog-$NAME.txt"; : > "$LOG"
-cleanup() { git -C /repo worktree remove --force "$WT" >/dev/null 2>&1; rm -rf "$WT" "$CARGO_TARGET_DIR" "/tmp/zksim-build-$NAME"; git -C /repo worktree prune; }
+# target directories are shared by the evaluations of one lane (dependencies are built once)
+cleanup() { git -C /repo worktree remove --force "$WT" >/dev/null 2>&1; rm -rf "$WT"; git -C /repo worktree prune; }
 cleanup
 git -C /repo worktree add -q --detach "$WT" HEAD || exit 2
 cp /repo/Cargo.lock "$WT/"
@@ -33,7 +35,7 @@ if $applies; then
   RES="{"
   first=true
   for c in "$@"; do
-    out=$(cd ${VERIF_HOME:-/verif} && VERIF_REPO="$WT" VERIF_BUILD_DIR="/tmp/zksim-build-$NAME" CARGO_TARGET_DIR="/tmp/zksim-build-$NAME/target" VERIF_DIR="/tmp/zksim-build-$NAME/vdir" ./check "$c" quick 2>&1); rc=$?
+    out=$(cd ${VERIF_HOME:-/verif} && VERIF_REPO="$WT" VERIF_BUILD_DIR="/tmp/zksim-build-$LANE" CARGO_TARGET_DIR="/tmp/zksim-build-$LANE/target" VERIF_DIR="/tmp/zksim-build-$LANE/vdir-$NAME" ./check "$c" quick 2>&1); rc=$?
     echo "=== check $c rc=$rc" >>"$LOG"; echo "$out" | grep -E "violation:|VIOLATION|HARNESS|zksim:" | cut -c1-600 >>"$LOG"
     cls=$(echo "$out" | grep -E "^  violation:" | sed -E 's/.*class=([^ ]+) site=([^ ]+).*/\1@\2/' | head -4 | tr '\n' ';')
     $first || RES="$RES,"; first=false
